@@ -20,9 +20,9 @@ import tlaval
 import vlib
 
 STR = re.compile(r'"((?:[^"\\]|\\.)*)"')
-FAST = re.compile(r'State \d+:\n/\\ inp = ([^\n]*)\n/\\ exp = \[out \|-> (<<(?:<<\d+, \d+>>(?:, )?)*>>), why \|-> (<<[^\n]*>>), '
-                  r'inv \|-> (TRUE|FALSE), unmodelled \|-> (TRUE|FALSE), f9 \|-> (TRUE|FALSE)\]\n/\\ mode = "(\w+)"\n'
-                  r'/\\ line = (<<[^\n]*>>)\n?$')
+FAST = re.compile(r'State \d+:\n/\\ inp = ([^\n]*)\n/\\ exp = \[([^\n]*)\]\n/\\ mode = "(\w+)"\n/\\ line = (<<[^\n]*>>)\n?$')
+FIELD_SPLIT = re.compile(r', (?=\w+ \|-> )')
+SIMPLE_OUT = re.compile(r'<<(?:<<\d+, \d+>>(?:, )?)*>>$')
 PAIR = re.compile(r'<<(\d+), (\d+)>>')
 UNESC = {'\\\\': '\\', '\\"': '"', '\\n': '\n', '\\r': '\r', '\\t': '\t'}
 TYPE = {'float': 'F', 'int': 'I', 'uint': 'U', 'bool': 'B', 'string': 'S', 'empty': 'E'}
@@ -44,6 +44,34 @@ def conv_out(out):
                         'fields': [[''.join(f['k']), TYPE[f['t']], ''.join(f['v']), bool(f['bad'])] for f in o['fields']],
                         'ts': ''.join(o['ts'])})
     return res
+
+
+def tlc_dump(ctx, cfg, timeout, must_pass=True, count=True):
+    """TLC run with -dump.  Development aid: with VERIF_LP_DUMP_CACHE=<dir> the dump of a configuration is kept in <dir>
+    and reused by later runs (TLC's part does not depend on the tree under test or on the seed); unset in normal use."""
+    cache = os.environ.get('VERIF_LP_DUMP_CACHE')
+    if cache:
+        os.makedirs(cache, exist_ok=True)
+        dp, mp = os.path.join(cache, cfg + '.dump'), os.path.join(cache, cfg + '.json')
+        if os.path.exists(dp) and os.path.exists(mp):
+            meta = json.load(open(mp))
+            r = vlib.TLCResult()
+            r.ok, r.generated, r.distinct, r.dump_path, r.cached = True, meta['generated'], meta['distinct'], dp, True
+            ctx.states += r.distinct
+            ctx.transitions += r.generated
+            ctx.tlc_runs.append({'spec': 'LineProtocol', 'cfg': cfg, 'generated': r.generated, 'distinct': r.distinct, 'depth': meta.get('depth', 0),
+                                 'ok': True, 'violated': None, 'wall_s': 0.0, 'mode': 'bfs (dump reused from VERIF_LP_DUMP_CACHE)'})
+            return r
+    if must_pass:
+        r = ctx.tlc_must_pass('LineProtocol', cfg, timeout=timeout, dump=True)
+    else:
+        r = ctx.tlc('LineProtocol', cfg, timeout=timeout, dump=True, count=count)
+    r.cached = False
+    if cache and r.ok:
+        import shutil
+        shutil.copy(r.dump_path, dp)
+        json.dump({'generated': r.generated, 'distinct': r.distinct, 'depth': r.depth}, open(mp, 'w'))
+    return r
 
 
 def iter_blocks(path, start=0, end=None, chunk=32 << 20):
@@ -105,12 +133,15 @@ def iter_states(path, start=0, end=None):
     for blk in iter_blocks(path, start, end):
         m = FAST.match(blk)
         if m:
-            mode = m.group(7)
-            src = m.group(8) if mode == 'A' else m.group(1)
-            if mode == 'A' or src.startswith('<<'):
-                yield mode, {'txt': chars(src), 'out': [[int(a), int(b)] for a, b in PAIR.findall(m.group(2))],
-                             'why': [UNESC.get(x, x) for x in STR.findall(m.group(3))],
-                             'inv': m.group(4) == 'TRUE', 'f9': m.group(6) == 'TRUE', 'unmodelled': m.group(5) == 'TRUE'}
+            mode = m.group(3)
+            src = m.group(4) if mode == 'A' else m.group(1)
+            rec = dict(f.split(' |-> ', 1) for f in FIELD_SPLIT.split(m.group(2)))
+            out = rec.get('out', '')
+            if (mode == 'A' or src.startswith('<<')) and SIMPLE_OUT.match(out) and len(rec) == 6:
+                yield mode, {'txt': chars(src), 'out': [[int(a), int(b)] for a, b in PAIR.findall(out)],
+                             'why': [UNESC.get(x, x) for x in STR.findall(rec['why'])],
+                             'inv': rec['inv'] == 'TRUE', 'f9': rec['f9'] == 'TRUE', 'f18': rec['f18'] == 'TRUE',
+                             'unmodelled': rec['unmodelled'] == 'TRUE'}
                 continue
         body = blk[blk.index('\n') + 1:] if blk.startswith('State ') else blk
         st = tlaval.plain(tlaval.parse_state_body(body))
@@ -122,7 +153,8 @@ def iter_states(path, start=0, end=None):
         if mode == 'P':
             yield mode, st
             continue
-        item = {'out': conv_out(e['out']), 'why': e['why'], 'inv': e['inv'], 'f9': e['f9'], 'unmodelled': e['unmodelled']}
+        item = {'out': conv_out(e['out']), 'why': e['why'], 'inv': e['inv'], 'f9': e['f9'], 'f18': e['f18'],
+                'unmodelled': e['unmodelled']}
         if mode == 'A':
             item['txt'] = ''.join(st['line'])
         elif mode == 'C':
@@ -196,7 +228,7 @@ def run(ctx):
     if tier == 'thorough':
         # whole-line inputs up to length 6 are 8.1e6 states: try them within a budget, else fall back to length 5 (the
         # section-wise generator is larger in both); the evidence records which configuration was in force
-        r = ctx.tlc('LineProtocol', cfg, timeout=780, dump=True, count=False)
+        r = tlc_dump(ctx, cfg, 780, must_pass=False, count=False)
         if r.timed_out:
             vlib.log('whole-line length 6 did not finish within 780 s on this machine: falling back to LineProtocol.C12_thorough5.cfg')
             ctx.tlc_runs[-1]['note'] = 'timed out, replaced by the thorough5 configuration'
@@ -205,14 +237,14 @@ def run(ctx):
             except OSError:
                 pass
             cfg = 'LineProtocol.C12_thorough5.cfg'
-            r = ctx.tlc_must_pass('LineProtocol', cfg, timeout=900, dump=True)
+            r = tlc_dump(ctx, cfg, 900)
         elif not r.ok:
             raise vlib.Inconclusive(f'TLC did not pass on {cfg}: violated={r.violated}\n' + '\n'.join(r.stdout.splitlines()[-40:]))
-        else:
+        elif not r.cached:
             ctx.states += r.distinct
             ctx.transitions += r.generated
     else:
-        r = ctx.tlc_must_pass('LineProtocol', cfg, timeout=1700, dump=True)
+        r = tlc_dump(ctx, cfg, 1700)
     t1 = time.time()
     # the dump is converted to case files by parallel workers, one byte range each (fork: nothing is pickled)
     size = os.path.getsize(r.dump_path)
@@ -251,7 +283,8 @@ def run(ctx):
         if acc[g] == 0:
             raise vlib.Inconclusive(f'vacuity guard: generator {g} has no accepted line')
     vlib.log(f'TLC {t1 - t0:.0f}s, dump converted in {t2 - t1:.0f}s by {nproc} workers: ' + ', '.join(f'{g}: {n[g]} inputs ({acc[g]} accepted)' for g in n))
-    os.remove(r.dump_path)
+    if not r.cached:
+        os.remove(r.dump_path)
     binary = ctx.go_build('lp')
     stats = {g: {'inputs': n[g], 'inputs_with_accepted_line': acc[g]} for g in n}
     for kind in ('BC', 'A'):
@@ -259,10 +292,10 @@ def run(ctx):
             path = f'{pre}.{kind}.ndjson'
             if os.path.getsize(path) == 0:
                 continue
-            res, lines = ctx.replay(binary, path, timeout=1500)
+            res, lines = ctx.replay(binary, path, timeout=1500, case_timeout='900s')
             ctx.absorb(res, lines, sample=1)
             os.remove(path)
-    res, lines = ctx.replay(binary, pcases, timeout=600)
+    res, lines = ctx.replay(binary, pcases, timeout=600, case_timeout='900s')
     ctx.absorb(res, lines, sample=1)
     stats['P'] = {'pad_cases': npad, 'time_cases': len(pcases) - npad}
     nontrivial = sum(acc.values()) + len(pcases)
